@@ -242,3 +242,106 @@ def _(sem, u):
 @spec("mkNilPairData", "unit")
 def _(sem, u):
     return [(T, ("list", "pair:data,data", []))]
+
+
+# ----------------------------------------------------------------------------------------------
+# Data builtins.  A data argument is a specs.data.DataV of a concrete top-level shape.
+
+
+def _dv(d):
+    return ("data", d)
+
+
+@spec("chooseData", "data", "any", "any", "any", "any", "any")
+def _(sem, d, c, m, l, i, b):
+    pick = {"constr": c, "map": m, "list": l, "i": i, "b": b}[d[0]]
+    return [(T, ("any", pick))]
+
+
+@spec("constrData", "int", "list:data")
+def _(sem, i, l):
+    return [(T, _dv(("constr", i, [x[1] for x in l[1]])))]
+
+
+@spec("mapData", "list:pair:data,data")
+def _(sem, l):
+    return [(T, _dv(("map", [(p[1][1], p[2][1]) for p in l[1]])))]
+
+
+@spec("listData", "list:data")
+def _(sem, l):
+    return [(T, _dv(("list", [x[1] for x in l[1]])))]
+
+
+@spec("iData", "int")
+def _(sem, n):
+    return [(T, _dv(("i", n)))]
+
+
+@spec("bData", "bytes")
+def _(sem, b):
+    return [(T, _dv(("b", b)))]
+
+
+@spec("unConstrData", "data")
+def _(sem, d):
+    if d[0] != "constr":
+        return [(T, FAIL)]
+    return [(T, ("pair", ("int", d[1]), ("list", "data", [_dv(x) for x in d[2]])))]
+
+
+@spec("unMapData", "data")
+def _(sem, d):
+    if d[0] != "map":
+        return [(T, FAIL)]
+    return [(T, ("list", "pair:data,data", [("pair", _dv(k), _dv(v)) for k, v in d[1]]))]
+
+
+@spec("unListData", "data")
+def _(sem, d):
+    if d[0] != "list":
+        return [(T, FAIL)]
+    return [(T, ("list", "data", [_dv(x) for x in d[1]]))]
+
+
+@spec("unIData", "data")
+def _(sem, d):
+    if d[0] != "i":
+        return [(T, FAIL)]
+    return [(T, ("int", d[1]))]
+
+
+@spec("unBData", "data")
+def _(sem, d):
+    if d[0] != "b":
+        return [(T, FAIL)]
+    return [(T, ("bytes", d[1]))]
+
+
+@spec("equalsData", "data", "data")
+def _(sem, a, b):
+    from specs import data as SD
+    return [(T, ("bool", SD.eq(a, b)))]
+
+
+@spec("mkPairData", "data", "data")
+def _(sem, a, b):
+    return [(T, ("pair", _dv(a), _dv(b)))]
+
+
+@spec("decodeUtf8", "bytes")
+def _(sem, b):
+    from mirsym.summaries import valid_utf8
+    v = valid_utf8()(b)
+    return [(v, ("str", b)), (z3.Not(v), FAIL)]
+
+
+# ----------------------------------------------------------------------------------------------
+# argument kinds of builtins without a result specification here (digest / curve arithmetic is not encoded):
+# used for the no-panic and ill-typed-argument obligations only.
+KINDS_ONLY = {
+    "sha2_256": ["bytes"], "sha3_256": ["bytes"], "blake2b_256": ["bytes"], "blake2b_224": ["bytes"], "keccak_256": ["bytes"],
+    "ripemd_160": ["bytes"], "verifyEd25519Signature": ["bytes", "bytes", "bytes"],
+    "verifyEcdsaSecp256k1Signature": ["bytes", "bytes", "bytes"], "verifySchnorrSecp256k1Signature": ["bytes", "bytes", "bytes"],
+    "serialiseData": ["data"],
+}
